@@ -616,11 +616,13 @@ def c11(rng, count):
             argv = ["--json", "-d", delim, "-f", gen_bounds(rng, fmt=0)]
         else:
             argv = ["-M", "1", "-d", delim, "-f", gen_forward_bounds(rng, fmt=0.2)] + (["-j"] if rng.random() < 0.3 else [])
+        # one case in five also holds bytes that are not valid UTF-8 ("every input")
+        dirty = rng.random() < 0.2
         if kind in ("chars", "lines", "json"):
-            pool = ["a", "b", "é", "\r", "\n", "\0", " ", delim.decode()]
-            data = "".join(rng.choice(pool) for _ in range(rng.randint(0, 10))).encode()
+            pool = [b"a", b"b", "é".encode(), b"\r", b"\n", b"\0", b" ", delim] + ([b"\xff", b"\xc3", b"\xe2\x82"] if dirty else [])
+            data = b"".join(rng.choice(pool) for _ in range(rng.randint(0, 10)))
         else:
-            alpha = list(b"ab\r\n\0\0\n ") + [delim[0]]
+            alpha = list(b"ab\r\n\0\0\n ") + [delim[0]] + (list(b"\xff\xc3\x80") if dirty else [])
             data = bytes(rng.choice(alpha) for _ in range(rng.randint(0, 12)))
         if any("\\n" in a for a in argv if isinstance(a, str)):
             continue        # option text that renders to LF is not neutral under the exchange
